@@ -401,18 +401,13 @@ def replay(out, prop, ended=True, tainted=False):
             elif st.startswith("fail") and op in ("putT", "getT") and "Timeout" in st:
                 for x in api_to.pop(kv.get("now"), []):
                     hx = hs[x]
-                    if hx.peer is not None and not hx.cancel_hit and not hx.withdrawn and not res.stopped:
-                        # the 1e6 s timeout fires only when nothing else can happen: a request that the model matched waited all that time
-                        exp = hs[hx.peer]
-                        if hx.kind == "get":
-                            diverge(b, "%s:lost:%s" % (pfx(boxes[hx.box]), context(boxes[hx.box], hx, exp)),
-                                    "get(timeout=1e6 s) h=%d of actor %d on %s (posted line %d) timed out, i.e. nothing else could happen in the "
-                                    "simulation, although send %s (line %d) was pending and acceptable for it in request order"
-                                    % (hx.h, hx.actor, hx.box, hx.ln, exp.mid, exp.ln), ev["ln"])
-                        else:
-                            res.stopped = "a put(timeout=1e6 s) that the model had matched timed out"
-                            res.count("replays_cut_at_timeout_of_a_matched_put")
-                        continue
+                    if hx.peer is not None and not hx.withdrawn and not hx.cancel_hit:
+                        # A request that the model matched timed out: either its transfer was in flight (once a first 1e6 s timeout has
+                        # fired the actors go on, and the next one can expire at any moment), or the peer arrived in the very scheduling
+                        # round of the expiry and the log cannot tell which of the put and the API's internal cancel came first
+                        res.stopped = "a put/get(timeout) that the model had matched timed out"
+                        res.count("replays_cut_at_timeout_of_a_matched_request")
+                        break
                     w = withdraw(hx)
                     res.count("mailbox_api_timeouts_of_%s_requests" % w)
             elif st.startswith("fail"):
